@@ -1348,13 +1348,27 @@ namespace bluetoe {
                 , end_( end )
                 , index_( details::handle_index_mapping< Server >::first_index_by_handle( starting_index ) )
                 , starting_index_( details::handle_index_mapping< Server >::first_index_by_handle( starting_handle ) )
-                , ending_index_( ending_handle )
+                , ending_index_( details::handle_index_mapping< Server >::first_index_by_handle( ending_handle ) )
                 , stoped_( false )
                 , first_( true )
                 , is_128bit_uuid_( true )
                 , attribute_data_size_( attribute_data_size )
                 , server_( server )
             {
+                // if the ending handle does not point to an existing attribute, the last attribute in front of that handle is meant.
+                if ( ending_index_ != details::invalid_attribute_index
+                  && details::handle_index_mapping< Server >::handle_by_index( ending_index_ ) != ending_handle )
+                {
+                    if ( ending_index_ == 0 )
+                    {
+                        // no attribute in front of the ending handle
+                        stoped_ = true;
+                    }
+                    else
+                    {
+                        --ending_index_;
+                    }
+                }
             }
 
             template< typename Service >
@@ -1388,7 +1402,7 @@ namespace bluetoe {
                   std::uint8_t*   end_;
                   std::size_t     index_;
             const std::size_t     starting_index_;
-            const std::size_t     ending_index_;
+                  std::size_t     ending_index_;
                   bool            stoped_;
                   bool            first_;
                   bool            is_128bit_uuid_;
